@@ -971,6 +971,65 @@ func rulePoolEscape(r *Run, rule string) {
 				}
 			}
 		})
+		// returned at most once: an object that goes back to the pool twice is handed to two later users at once
+		for pi, p := range pooled {
+			if !back[p] {
+				continue
+			}
+			var puts []ssa.Instruction
+			deferred := 0
+			allInstrs(fn, func(in ssa.Instruction) {
+				ci, ok := in.(ssa.CallInstruction)
+				if !ok {
+					return
+				}
+				cm := ci.Common()
+				isPut := calleeName(cm) == "(*sync.Pool).Put"
+				if g := staticCallee(cm); g != nil && g.Pkg == w.SPkg && putsPool(g) {
+					isPut = true
+				}
+				if !isPut {
+					return
+				}
+				for _, a := range cm.Args {
+					if mi, ok := a.(*ssa.MakeInterface); ok {
+						a = mi.X
+					}
+					if a == p {
+						puts = append(puts, in)
+						if _, isDefer := in.(*ssa.Defer); isDefer {
+							deferred++
+						}
+					}
+				}
+			})
+			twice := ""
+			for _, a := range puts {
+				_, aDef := a.(*ssa.Defer)
+				for _, b := range puts {
+					if a == b {
+						continue
+					}
+					_, bDef := b.(*ssa.Defer)
+					switch {
+					case aDef && !bDef:
+						// the deferred put runs at every exit after it was registered: any explicit put reachable from the
+						// registration is a second one
+						if reachAvoid(fn, a, func(in ssa.Instruction) bool { return in == b }, func(ssa.Instruction) bool { return false }) != nil {
+							twice = w.InstrPos(b)
+						}
+					case !aDef && !bDef:
+						if reachAvoid(fn, a, func(in ssa.Instruction) bool { return in == b }, func(ssa.Instruction) bool { return false }) != nil {
+							twice = w.InstrPos(b)
+						}
+					}
+				}
+			}
+			if len(puts) > 0 {
+				r.Check(twice == "", rule, fmt.Sprintf("pool:put-once:%s#%d", w.Name(fn), pi), w.InstrPos(puts[0])+" "+w.Name(fn), fmt.Sprintf("the pooled object is returned at most once on every path (%d return sites, %d deferred)", len(puts), deferred),
+					"the pooled object is returned to the pool a second time at "+twice+": two later searches receive the same object")
+			}
+		}
 		for _, p := range pooled {
 			if !back[p] {
 				continue // a getter wrapper: the caller owns the object
